@@ -324,6 +324,8 @@ Definition apply_builtin (b : builtin) (args : list val) : R val :=
   | BChunks, _ => Exc Unmodelled
   | BIsInt, [VInt _] => Val (VBool true)          (* type(x) == int: exactly int, not bool *)
   | BIsInt, [_] => Val (VBool false)
+  | BB64Encode, [VBytes b] => if forallb (fun c => (0 <=? c) && (c <? 256)) b then Val (VBytes (b64encode b)) else Exc Unmodelled
+  | BB64Encode, [_] => Exc TypeError
   | BIsInstanceInt, [VInt _] => Val (VBool true)  (* isinstance(x, int): bool is a subclass of int *)
   | BIsInstanceInt, [VBool _] => Val (VBool true)
   | BIsInstanceInt, [_] => Val (VBool false)
@@ -394,6 +396,7 @@ Definition apply_meth (m : meth) (obj : val) (args : list val) : R val :=
   | MStrip, VStr s, [] => if ascii s then Val (VStr (strip_ws s)) else Exc Unmodelled
   | MIsdigit, VStr s, [] => if ascii s then Val (VBool (plain_digits s)) else Exc Unmodelled
   | MEncodeAscii, VStr s, [] => if ascii s then Val (VBytes s) else Exc Unmodelled
+  | MDecode, VBytes b, [] => if ascii b then Val (VStr b) else Exc Unmodelled     (* bytes.decode(): UTF-8; the identity on ASCII *)
   | MEncodeUtf8, VStr s, [] => match utf8_encode s with Some b => Val (VBytes b) | None => Exc Unmodelled end
   | MFormat, VStr t, args => let! r := format_go t args in Val (VStr r)
   | _, _, _ => Exc Unmodelled
